@@ -11,7 +11,8 @@ package netpoll
 // brought through the same history) and is therefore checked against the model and the spec oracle, and
 // can be replayed synthetically.  Each scenario ends with a `real` line carrying the end-to-end facts:
 // all bytes delivered before the hang-up, hang-up exactly once, Trigger woke the blocked loop, Close made
-// Wait return and released both descriptors, the event array grew as the rule says.
+// Wait return and released both descriptors (and a hang-up handled in the same wake-up as the close message
+// was still reported), the event array grew as the rule says.
 
 import (
 	"bufio"
@@ -579,12 +580,57 @@ func vrRun(seed int64, growth bool, ow, iw *bufio.Writer) (ok bool) {
 		}
 	}
 
-	// --- Close: Wait returns nil, both descriptors are released
-	v.mu.Lock()
-	v.closeMsg = true
-	v.mu.Unlock()
-	if err := p.Close(); err != nil {
-		v.fail("Close: " + err.Error())
+	// --- Close: Wait returns nil, both descriptors are released.  The close message arrives in ONE wake-up with a
+	// hang-up: the loop is held at the gate with a data batch of a helper connection while the peer of `last` closes
+	// and Close() is called (three rounds in four the hang-up became ready first and is in front of the close message:
+	// `last` is detached in that batch and must still get its OnHup; else the close message is first and `last` is
+	// not touched at all)
+	var last *vrConn
+	{
+		c, err1 := v.newConn(60, false, 8)
+		x, err2 := v.newConn(61, false, 8)
+		if err1 != nil || err2 != nil {
+			v.fail(fmt.Sprint("close-with-hup conns: ", err1, err2))
+		} else {
+			v.register(c)
+			v.register(x)
+			v.quiesce(0, nil)
+			gate := make(chan struct{})
+			atomic.StoreInt32(&v.atGate, 0)
+			v.gate = gate
+			v.act(x, "w2") // the loop wakes up for x and waits at the gate
+			for dl := time.Now().Add(10 * time.Second); atomic.LoadInt32(&v.atGate) == 0 && time.Now().Before(dl); {
+				time.Sleep(100 * time.Microsecond)
+			}
+			if atomic.LoadInt32(&v.atGate) == 0 {
+				v.fail("close-with-hup: data did not bring the loop to the gate")
+			}
+			closeFirst := r.Intn(4) == 0
+			if !closeFirst {
+				v.act(c, "c")
+			}
+			v.mu.Lock()
+			v.closeMsg = true
+			v.mu.Unlock()
+			if err := p.Close(); err != nil {
+				v.fail("Close: " + err.Error())
+			}
+			if closeFirst {
+				v.act(c, "c")
+			}
+			v.gate = nil
+			close(gate)
+			last = c
+			runs = append(runs, &run{c: c}, &run{c: x})
+		}
+	}
+	if last == nil {
+		v.mu.Lock()
+		v.closeMsg = true
+		v.mu.Unlock()
+		if err := p.Close(); err != nil {
+			v.fail("Close: " + err.Error())
+		}
 	}
 	select {
 	case err := <-waitDone:
@@ -593,6 +639,14 @@ func vrRun(seed int64, growth bool, ow, iw *bufio.Writer) (ok bool) {
 		}
 		if !vpFdClosed(wopFD) || !vpFdClosed(epFD) {
 			v.fail("Close: the poller's descriptors are still open after Wait returned")
+		}
+		// the wrapped handler waited for the hang-up goroutine before it let Wait return
+		if last != nil {
+			if det := atomic.LoadInt32(&last.op.detached); det > 0 && last.hups != 1 {
+				v.fail(fmt.Sprintf("close-with-hup: the connection was detached in the poller's last batch and its hang-up was reported %d times", last.hups))
+			} else if det == 0 && last.hups != 0 {
+				v.fail(fmt.Sprintf("close-with-hup: hang-up reported %d times to a connection that was never detached", last.hups))
+			}
 		}
 	case <-time.After(30 * time.Second):
 		v.fail("Close did not make Wait return")
